@@ -23,7 +23,9 @@ are written without subtraction. `unsigned char` stores are `% 256` where the va
 Transcription map (the C++ as FIXED in the verification worktree, see known_findings.d/C16.json)
 * `N2kRequireUnicode`             → `requireUnicode` (`ruLoop`, `ruCont`)
 * `N2kUTF8SeqBytes` (added by fix) → `utf8SeqBytes`
-* `N2kUTF8ToUCS2` / `N2kUTF8ToASCII` → `utf8ToUCS2` (`u2uLoop`) / `utf8ToASCII` (`u2aLoop`)
+* `N2kUTF8ToUCS2` / `N2kUTF8ToASCII` → `utf8ToUCS2` (`u2uLoop`, `ucs2Step`) / `utf8ToASCII` (`u2aLoop`, `asciiStep`)
+  with the three fixes: continuation bytes counted before use, `else` branch for invalid lead bytes,
+  loop bound `Len+2<=bufLen`
 * `N2kUCS2ToUTF8`                 → `ucs2ToUTF8` (`c2uLoop`)
 * `SetBufStr` (UsePgm=false)      → `setBufStr` (`sbsCopy`, `sbsFill`);  `tN2kMsg::AddStr` → `addStr`
 * `tN2kMsg::AddAISStr`            → `addAISStr` (`aisLoop`, `memsetD`)
